@@ -68,6 +68,10 @@ def to_line(ev):
         return "alloc %d" % ev["d"]
     if e == "Set":
         return "set %d %s %s %s" % (ev["d"], ev["t"], ev["n"], ev["v"])
+    if e == "SetHex":
+        return "sethex %d %s %s %s -1" % (ev["d"], ev["t"], ev["n"], ev["v"])
+    if e == "SetBad":
+        return "sethex %d %s %s %s %d" % (ev["d"], ev["t"], ev["n"], ev["v"], ev["bad"])
     if e == "SetAlias":
         return "seta %d %s %s %s %s" % (ev["d"], ev["t"], ev["n"], ev["t2"], ev["n2"])
     if e == "Get":
@@ -515,6 +519,15 @@ def gen_script(rng, length, nkeys, big):
         if x < 34:
             k = rng.choice(keys)
             cmds.append(key({"e": "Set", "d": d, "v": rand_value(rng, base_of(k[1]), big)}, k))
+        elif x < 38 and any(base_of(k[1]) == "opaque" and k[0] != "-" for k in keys):
+            # the value as a hexadecimal string - and strings that stop being hexadecimal: a refused setter
+            k = rng.choice([k for k in keys if base_of(k[1]) == "opaque" and k[0] != "-"])
+            v = rand_value(rng, "opaque", False)
+            n = int(v[1:].split(".")[0])
+            if n > 0 and rng.chance(2, 3):
+                cmds.append(key({"e": "SetBad", "d": d, "v": v, "bad": rng.choice([0, n - 1, rng.below(n)])}, k))
+            else:
+                cmds.append(key({"e": "SetHex", "d": d, "v": v}, k))
         elif x < 48:
             cmds.append(key({"e": "Get", "d": d}, rng.choice(keys)))
         elif x < 59:
